@@ -123,6 +123,7 @@ CHECKS = {
              "the real pure-Python ChaCha20-Poly1305 partial-tag code.",
         design="DESIGN.md section 5 C18"),
     "C19": dict(
+        technique=TECH + "; part (a) has symbolic advertisement bytes and lengths, parts (b) and (c) are hand-driven / selector-built (bounded exhaustive exploration of schedules of the real coroutines)",
         text="PARTIAL: (a) HomeKitAdvertisement and HomeKitEncryptedNotification parsing for every Apple manufacturer-data byte string "
              "of length 0..24 (symbolic content, concrete id bytes) against the field-extraction spec; BleController._device_detected "
              "with the real pairing-side handlers for every such advertisement x {no pairing, pairing with cached state, pairing "
@@ -138,14 +139,35 @@ CHECKS = {
              "futures/timers standing in for asyncio's (state machine and Task.cancel/asyncio.timeout semantics as documented), z3. "
              "In (b) and (c) every symbolic variable is a discrete selector: the guarantee equals bounded exhaustive exploration.",
         design="DESIGN.md section 5 C19"),
+    "C08": dict(
+        text="PARTIAL, hand-driven: every caller is the real HomeKitConnection.request coroutine on the real InsecureHomeKitProtocol "
+             "(_send_lines, data_received, HttpResponse, connection_lost, _cancel_pending_requests, _connection_lost); futures, the 30 s "
+             "timer, the semaphore and the transport are loop-free stand-ins with asyncio's documented behaviour. For every schedule of "
+             "at most 5 (thorough 6) events over {next caller starts, accessory answers the oldest request, accessory sends an EVENT, "
+             "read all / a prefix of the pending bytes, caller k cancelled, caller k's timer fires, peer closes, loop delivers the loss, "
+             "unsolicited response} with 2 (3) callers, concurrency limit 1 or more, both resume orders and wake-ups optionally delayed "
+             "past the next callback: a returning caller holds the response naming its own request, the listener sees every completely "
+             "delivered EVENT once and in order, failures are CancelledError (cancelled) or AccessoryDisconnectedError (timer / abandoned "
+             "or lost connection) only, a timed-out or cancelled request in flight closes the transport and nothing is written to it "
+             "afterwards, after the loss nobody is left waiting. NOT decided: the encrypted protocol, real sockets/timers, loop ordering "
+             "beyond the modelled choices.",
+        note="All symbolic variables are discrete schedule selectors (the solver decides feasibility of each selector branch; the guarantee "
+             "equals bounded exhaustive exploration of these schedules of the real coroutines). Trusted: the stand-ins for asyncio "
+             "Future/Task.cancel/call_at/Semaphore and the transport; the oracle is model-free (responses are labelled by request).",
+        technique="bounded symbolic execution (symx, z3) of the real coroutines, hand-driven without an event loop; every symbolic variable is a schedule selector, so this is bounded exhaustive schedule exploration of the real code; counterexample schedules replayed on the unmodified library",
+        design="DESIGN.md section 0.3a and 6 (C08)"),
     "C10": dict(
+        technique=TECH + "; parts (b)-(h) are hand-driven coroutines whose symbolic variables are discrete selectors (bounded exhaustive exploration), part (a) is an SMT proof over reals lifted from the source AST",
         text="PARTIAL: (a) the back-off update expression is lifted from HomeKitConnection._reconnect's AST into z3 reals and the one-step "
              "law (next <= 60, next >= 0.75, grows until the cap, cap within 12 steps) is proved for every interval in [0.5, 60]; "
              "(b) the real _reconnect coroutine is hand-driven for K attempts (quick 3, thorough 4) over every combination of outcome "
              "selectors {refused, timeout, peer close, HTTP 4xx, wrong pairing id marking / not marking the address, bad signature, "
              "authentication error, unexpected exception, success} x host lists of 1..3 x wake-up / close-request flags, checked "
              "against the back-off law, the immediate-retry rule and the termination rule; (c) connector guards from an arbitrary "
-             "flag state; (d) _get_connect_hosts over every exclusion subset; (e) the waiting caller, hand-driven: "
+             "flag state; (d) _get_connect_hosts over every exclusion subset and the refresh of the host list from the advertisement in the "
+             "real SecureHomeKitConnection._connect_once (which addresses an attempt tries); (f) a failed set-up followed by the late "
+             "connection_lost of its socket starts no second connector; (g) IpPairing._async_description_update from every flag state "
+             "(never after shutdown); (e) the waiting caller, hand-driven: "
              "IpPairing._ensure_connected / ensure_connection with loop-free stand-ins for shield, asyncio.timeout and the connector "
              "task: the caller waits on a shielded future, a caller that is cancelled or times out gets CancelledError / "
              "AccessoryDisconnectedError (naming the connector's last error) and the connector is not cancelled, a connector that "
@@ -155,6 +177,7 @@ CHECKS = {
              "histories of the real coroutine; _connect_once, asyncio.sleep, interrupt, create_future, async_create_task are stubs.",
         design="DESIGN.md section 5 C10"),
     "C11": dict(
+        technique=TECH + "; the coroutines are hand-driven and every symbolic variable is a discrete history selector (bounded exhaustive exploration of fault histories of the real code)",
         text="PARTIAL: the real secure/insecure _connect_once (from the point where the socket exists), post_tlv/post/request, the "
              "protocol's _send_lines/data_received/connection_made/connection_lost, HttpResponse, _drop_transport, close, "
              "_stop_connector and _connection_lost run against a harness-side network model for every history of K (quick 2, "
@@ -168,7 +191,6 @@ CHECKS = {
 }
 
 NOT_APPLICABLE = {
-    "C08": "request/response attribution lives in the asyncio event loop (timers, future cancellation, contended semaphore); the only symbolic candidates are schedule selectors, so deciding it would be schedule enumeration on a simulated loop, not solver reasoning over the real code",
     "C09": "request bytes are produced by f-strings, str.join, str.encode and orjson.dumps - C-level operations that force concrete str, so nothing symbolic survives to the first byte; what remains is example testing",
     "C12": "all quantified quantities are discrete schedule/history choices running through orjson and C-level set hashing on a running loop; no byte- or integer-level content for the solver to generalise over",
     "C20": "data path is orjson.dumps -> open/write -> orjson/commentjson.loads; the only symbolic candidate is a crash index that must be realised at the JSON parser, i.e. crash-point enumeration",
